@@ -35,5 +35,10 @@ CHECKS.update({
  "C10": wm("C10", "spec/Families.tla MemDep", "Store->load, load->store and store->store pairs on overlapping bytes at distance 1..4 with independent address registers, warm or cold line, on MVP-4..8 x parallelism; the load destination and the conflicting bytes must hold the sequential values.", "4/C10"),
  "C12": ("model_checking", "TLC-generated programs with the MVP-1 latency ledger of RV32.tla (Cyc1) as the expected cycle count; Timing family for value independence", "MVP-1 cycles must equal the specification's ledger exactly, MVP-2 <= MVP-1, every variant >= ceil(n/width) > 0, and Timing programs with equal path and addresses must take equal cycles on every configuration.", "cycle properties are only judged on runs that agree functionally with the sequential result", "4/C12"),
 })
-
+CHECKS.update({
+ "C06": ("model_checking", "TLC exhaustive on the design model spec/MSI.tla + trace validation (spec/MSITrace.tla) of per-cycle coherence snapshots exported by the verif hooks from rig schedules and full CPU runs",
+         "The C06 clauses are written once (spec/MSIProps.tla); TLC checks them on every reachable state of the design model (2 cores x 2 lines, 3 cores x 1 line; deadlock-freedom, completion under fairness) and on every logged implementation state of MVP-7.0/7.1/8: rig schedules (pairs at every grid offset, triples, evictions, injected flushes) and CPU runs of program families on 1..4 cores.",
+         "hash equality stands for byte identity; the rig explores timing offsets (latencies are constants of the code)", "4/C06"),
+})
+CHECKS.update({})
 NOT_APPLICABLE = {}
